@@ -1079,9 +1079,27 @@ Proof.
 Qed.
 
 (* ================= statement 2: a written line is read back ================= *)
-Lemma vline_bytes_removelast l :
-  removelast (vline_bytes l) = (match vl_voice l with [] => [] | v => [60;118;32] ++ v ++ [62] end) ++ vruns_bytes None (vl_runs l).
-Proof. unfold vline_bytes. rewrite app_assoc. apply removelast_last. Qed.
+(* the voice tag: the writer replaces a '>' of the name by its character reference; an admissible name has none *)
+Lemma voice_esc_id v : ~ In 62 v -> voice_esc v = v.
+Proof.
+  unfold voice_esc. induction v as [|c r IH]; intros H; [reflexivity|]. cbn [flat_map].
+  destruct (c =? 62) eqn:E; [apply N.eqb_eq in E; subst c; exfalso; apply H; left; reflexivity|].
+  cbn [app]. rewrite IH; [reflexivity | intros Hi; apply H; right; exact Hi].
+Qed.
+Lemma annot_ok_no_gt v : annot_ok v = true -> ~ In 62 v.
+Proof.
+  unfold annot_ok. intros H Hin. apply andb_true_iff in H. destruct H as [H _]. rewrite forallb_forall in H.
+  specialize (H 62 Hin). discriminate H.
+Qed.
+Definition voice_part (l : vline) : str := match vl_voice l with [] => [] | v => [60;118;32] ++ voice_esc v ++ [62] end.
+Lemma voice_part_ok l : annot_ok (vl_voice l) = true ->
+  voice_part l = match vl_voice l with [] => [] | v => [60;118;32] ++ v ++ [62] end.
+Proof.
+  intros H. unfold voice_part. destruct (vl_voice l) as [|c r] eqn:E; [reflexivity|].
+  rewrite (voice_esc_id (c :: r) (annot_ok_no_gt _ H)). reflexivity.
+Qed.
+Lemma vline_bytes_removelast l : removelast (vline_bytes l) = voice_part l ++ vruns_bytes None (vl_runs l).
+Proof. unfold vline_bytes, voice_part. rewrite app_assoc. apply removelast_last. Qed.
 
 Lemma voice_ok_annot v : voice_ok v = true -> annot_ok v = true.
 Proof. unfold voice_ok. intros H. rewrite !andb_true_iff in H. tauto. Qed.
@@ -1090,7 +1108,7 @@ Theorem parse_vline l : repr_vline l = true ->
   parse_text_vtt (removelast (vline_bytes l)) [] = (nline l, []).
 Proof.
   intros H. unfold repr_vline in H. apply andb_true_iff in H. destruct H as [Hv Hc]. apply voice_ok_annot in Hv.
-  rewrite vline_bytes_removelast. unfold parse_text_vtt, tokenize, nline.
+  rewrite vline_bytes_removelast, (voice_part_ok l Hv). unfold parse_text_vtt, tokenize, nline.
   pose proof (runs_sem (vl_runs l) None [] [] (vl_voice l) I Hc (or_introl eq_refl)) as R.
   cbn [otags bodies map concat rev app] in R. rewrite common_prefix_nil_l in R. cbn [firstn] in R.
   destruct (vl_voice l) as [|c v'] eqn:Ev.
